@@ -277,6 +277,14 @@ func c14RootConfigs() []*world.Config {
 		cs = append(cs, world.StructCfg(2, []uint8{0, 1, 0, 2}, f, "none"))
 		cs = append(cs, world.Uint64Cfg(2, []uint64{0, 2, 4, 1<<53 + 1, 1 << 63}, f, "none"))
 		cs = append(cs, world.IntCfg(4, []int{1, 2, 4, 8, 16}, []interface{}{world.SVal{Asdf: "a", Q: true}}, world.SVal{}, f, "none"))
+		if f == B {
+			// nil values (ValuesLike=nil, registered types): the element body is the marshaler's output for nil
+			nv := world.IntCfg(2, []int{1, 2, 3, 4, 8}, []interface{}{nil}, nil, f, "none")
+			nv.RegisteredTypes = true
+			cs = append(cs, nv)
+			cs = append(cs, world.IntCfg(2, []int{1, 2, 3, 4}, []interface{}{[]int{}, []int{1, 2}}, []int{}, f, "none"))
+			cs = append(cs, world.IntCfg(4, []int{1, 2, 4, 8}, []interface{}{"", "x"}, "", f, "none"))
+		}
 		// every link pattern of small top nodes: all layer assignments (0..2) of 4 user keys
 		for _, l := range allLayerAssignments(4, 2) {
 			cs = append(cs, world.LKeyCfg(2, l, 1, f, "none"))
@@ -350,7 +358,7 @@ func allVersionsLogged(cfg *world.Config, f func(env.Call)) ([]*version, error) 
 
 var c14StoreHook sync.Map
 
-func goldenPath() string { return filepath.Join(report.VerifDir, "golden", "c14.json") }
+func goldenPath() string { return filepath.Join(report.HomeDir, "golden", "c14.json") }
 
 // C14Gen writes the golden file (manual step, never run by a check).
 func C14Gen() int {
